@@ -570,7 +570,7 @@ func c25RunSeq(dir string, f0 string, ops []c25Op, gen func(cur *policy.Policy) 
 				}
 			}
 			isAdd := o.Op == "add_allow" || o.Op == "add_susp"
-			if isAdd && changedFile && glued && strings.HasPrefix(string(fa), string(fb)) {
+			if isAdd && changedFile && glued && ineffective && strings.HasPrefix(string(fa), string(fb)) {
 				// the line was appended directly behind the unterminated last line
 				diag = "append-glued-to-unterminated-last-line"
 			} else if ineffective && oerr == nil && sect {
